@@ -143,13 +143,13 @@ func cmdCheck(args []string) int {
 		}
 		toSolve = append(toSolve, ob)
 	}
-	solveAll(toSolve, solveOpts{TimeoutS: timeout, Seed: seed, Dir: smtDir, Workers: 10})
+	solveAll(toSolve, solveOpts{TimeoutS: timeout, Seed: seed, Dir: smtDir, Workers: 10, CrossCheck: *tier == "thorough", KeepAll: *tier == "thorough"})
 	solveS := time.Since(tsolve).Seconds()
 
 	replayDir := filepath.Join(*verif, "replays", id)
 	os.RemoveAll(replayDir)
 	var obsEv []obEvidence
-	nOb, nDis, nViol, nCover, nVac, nCoverUnknown := 0, 0, 0, 0, 0, 0
+	nOb, nDis, nViol, nCover, nVac, nCoverUnknown, nCross := 0, 0, 0, 0, 0, 0, 0
 	solverMs := int64(0)
 	var knownHit []string
 	var deadReturns []string
@@ -199,9 +199,17 @@ func cmdCheck(args []string) int {
 		}
 		nOb++
 		obsEv = append(obsEv, obEvidence{ob.Name, ob.Kind, ob.Solver, ob.Result, ob.Ms, ob.Pos})
+		if ob.Result == "disagreement" {
+			fmt.Printf("UNDECIDED solver disagreement on %s: %s\n", ob.Name, ob.Solver)
+			undecided++
+			continue
+		}
 		if ob.Result == "unsat" {
 			nDis++
 			bySolver[ob.Solver]++
+			if len(ob.CrossChecked) > 1 {
+				nCross++
+			}
 			if len(samples) < 3 && ob.Solver != "simplifier" {
 				samples = append(samples, map[string]string{"obligation": ob.Name, "goal": truncate(ob.Goal.String(), 600), "clause": ob.Desc})
 			}
@@ -335,6 +343,7 @@ func cmdCheck(args []string) int {
 			"functions_under_contract": fnames,
 			"encoding": enc,
 			"obligation_results": obsEv,
+			"cross_checked": map[string]interface{}{"enabled": *tier == "thorough", "discharged_confirmed_by_a_second_solver_or_seed": nCross, "note": "thorough tier only: every unsat answer is re-asked to the other two solvers (15 s each) and to the same solver with another random seed; a sat answer from any of them makes the check UNDECIDED"},
 			"discharged_by_solver": bySolver,
 			"solver_ms_total": solverMs,
 			"load_s": loadS, "generate_s": genS, "solve_s": solveS,
